@@ -251,6 +251,28 @@ async fn try_forward_api_call(
             }
             tx.send(Ok(imported_values)).ok();
         }
+        Some(WbFunction::Disconnected(client_id, remote_addr)) => {
+            // burying the grave goods and publishing the last will happen inside the core, where
+            // nothing is forwarded: mirror them to the followers
+            let (grave_goods, last_will) = worterbuch.disconnect_effects(&client_id);
+            process_api_call(
+                worterbuch,
+                WbFunction::Disconnected(client_id, remote_addr),
+            )
+            .await;
+            for pattern in grave_goods {
+                forward_to_followers(ClientWriteCommand::PDelete(pattern), client_write_txs, dead)
+                    .await;
+            }
+            for kvp in last_will {
+                forward_to_followers(
+                    ClientWriteCommand::Set(kvp.key, kvp.value, true),
+                    client_write_txs,
+                    dead,
+                )
+                .await;
+            }
+        }
         Some(function) => {
             // TODO check if processing was successful and only then forward api call
             forward_api_call(client_write_txs, dead, &function, true).await;
